@@ -775,6 +775,7 @@ type panicInfo struct {
 	stack string
 }
 
+var phylipHeaderLineRe = regexp.MustCompile(`(?m)^[ \t]*[0-9]+[ \t]+[0-9]+[ \t]*\r?$`)
 var nexusDimRe = regexp.MustCompile(`^dimensions[ \t]+(ntax|nchar)[ \t]*=[ \t]*([0-9]{1,9})(?:[ \t]+(ntax|nchar)[ \t]*=[ \t]*([0-9]{1,9}))?[ \t]*;`)
 var nexusBeginRe = regexp.MustCompile(`begin[ \t]+(data|characters)[ \t]*;`)
 
@@ -1051,6 +1052,22 @@ func (c03) Run(ctx *Ctx, ci interface{}) (o Outcome) {
 			// ParseMultiple: no alignment and no error = empty stream
 			fail("eos-on-nonblank", "no alignment and no error although the stream holds more than blanks")
 			return
+		}
+		// a stream of Phylip alignments that was only cut short (or whose reader failed): every header line that was
+		// delivered announces an alignment; fewer alignments and no error is a silent loss
+		if res.multi && res.err == nil && strings.HasPrefix(c03FormatOf(c.Parser), "phylip") {
+			only := true
+			for _, f := range c.Faults {
+				only = only && (strings.HasPrefix(f, "trunc@") || strings.HasPrefix(f, "readerr@"))
+			}
+			if only && strings.HasPrefix(c.Origin, "written-") {
+				nh := len(phylipHeaderLineRe.FindAll(seenData, -1))
+				o.Add("multi_streams_header_lines_counted", 1)
+				if nh > len(res.als) {
+					fail("silent-loss", "%d header lines reached the parser, %d alignments came back and no error", nh, len(res.als))
+					return
+				}
+			}
 		}
 		for k, al := range res.als {
 			if cl, msg := wellFormed(al); cl != "" {
